@@ -132,8 +132,109 @@ MEAN = {
          "func": ("_find_boundary", Func("find_boundary", [("fn", fun(NUM, NUM), None), ("init", NUM, None),
                                                            ("mult", NUM, ("(nlit 10)", NUM))], NUM))},
         {"py": "RatioOfMeans._solve_power_from_stats", "coq": "rom_solve_power_from_stats"},
+        {"raw": lambda tr: _power_rows_emit(tr)},
     ],
 }
+
+
+_SPFA_WANT = """tea_tasting.utils.check_scalar(parameter, 'parameter', in_={'power', 'effect_size', 'rel_effect_size', 'n_obs'})
+data = data.with_zero_div()
+covariate_coef = self._covariate_coef(data)
+covariate_mean = data.mean(self.numer_covariate) / data.mean(self.denom_covariate)
+metric_mean = self._metric_mean(data, covariate_coef, covariate_mean)
+power, effect_size, rel_effect_size, n_obs = self._validate_power_parameters(metric_mean=metric_mean, sample_count=data.count(), parameter=parameter)
+result = MeanPowerResults()
+for effect_size_i, rel_effect_size_i in zip(effect_size, rel_effect_size, strict=True):
+    for n_obs_i in n_obs:
+        parameter_value = self._solve_power_from_stats(sample_var=self._metric_var(data, covariate_coef), sample_count=n_obs_i, effect_size=effect_size_i, power=power)
+        result.append(MeanPowerResult(power=parameter_value if parameter == 'power' else power, effect_size=parameter_value if parameter in {'effect_size', 'rel_effect_size'} else effect_size_i, rel_effect_size=parameter_value / metric_mean if parameter in {'effect_size', 'rel_effect_size'} else rel_effect_size_i, n_obs=math.ceil(parameter_value) if parameter == 'n_obs' else n_obs_i))
+return result"""
+_VPP_WANT = """n_obs = None
+effect_size = None
+rel_effect_size = None
+power = None
+if parameter in {'power', 'n_obs'}:
+    if self.effect_size is None and self.rel_effect_size is None:
+        raise ValueError('Both `effect_size` and `rel_effect_size` are `None`. One of them should be defined.')
+    effect_size = self.effect_size if self.rel_effect_size is None else tuple((rel_effect_size * metric_mean for rel_effect_size in _to_seq(self.rel_effect_size)))
+    rel_effect_size = self.rel_effect_size if self.effect_size is None else tuple((effect_size / metric_mean for effect_size in _to_seq(self.effect_size)))
+if parameter in {'power', 'effect_size', 'rel_effect_size'}:
+    n_obs = (sample_count,) if self.n_obs is None else self.n_obs
+if parameter in {'effect_size', 'rel_effect_size', 'n_obs'}:
+    power = self.power
+return (power, _to_seq(effect_size), _to_seq(rel_effect_size), _to_seq(n_obs))"""
+
+
+def _power_rows_emit(tr):
+    """solve_power_from_aggregates / _validate_power_parameters: nested loops over sequences and scalar-or-sequence
+    attributes.  Template translation: the normalised source text of both functions (and of _to_seq and MeanPowerResult)
+    must be exactly the text this template was written for; any edit fails closed."""
+    from py2coq import Unsupported
+
+    def body_text(qual):
+        d = tr.find_def(qual)
+        return "\n".join(_ast.unparse(b) for b in d.body
+                         if not (isinstance(b, _ast.Expr) and isinstance(b.value, _ast.Constant)))
+    for qual, want in (("RatioOfMeans.solve_power_from_aggregates", _SPFA_WANT), ("RatioOfMeans._validate_power_parameters", _VPP_WANT),
+                       ("_to_seq", "if isinstance(x, Sequence):\n    return x\nreturn (x,)")):
+        got = body_text(qual)
+        if got != want:
+            import difflib
+            diff = "\n".join(list(difflib.unified_diff(want.split("\n"), got.split("\n"), lineterm=""))[:12])
+            raise Unsupported(f"{qual} is not the text the row-assembly template was written for:\n{diff}")
+    mpr = tr.find_def("MeanPowerResult")
+    fields = [b.target.id for b in mpr.body if isinstance(b, _ast.AnnAssign)]
+    if fields != ["power", "effect_size", "rel_effect_size", "n_obs"]:
+        raise Unsupported(f"MeanPowerResult fields {fields}")
+    return (
+        "(* ---- power analysis rows: RatioOfMeans._validate_power_parameters and the loops of solve_power_from_aggregates ----\n"
+        "   self.effect_size / self.rel_effect_size / self.n_obs are scalars or sequences (_to_seq): a scalar is a one-element\n"
+        "   list here.  Outer None of rom_validate_power_parameters = ValueError. *)\n"
+        "Inductive power_param := PPower | PEffect | PRelEffect | PNObs.\n"
+        "Definition pp_needs_effect (p : power_param) : bool := match p with PPower | PNObs => true | _ => false end.\n"
+        "Definition pp_needs_n_obs (p : power_param) : bool := match p with PNObs => false | _ => true end.\n"
+        "Definition pp_needs_power (p : power_param) : bool := match p with PPower => false | _ => true end.\n"
+        "Definition pp_solves_effect (p : power_param) : bool := match p with PEffect | PRelEffect => true | _ => false end.\n"
+        "Record power_row := mk_power_row { pw_power : option num; pw_effect_size : option num; pw_rel_effect_size : option num;\n"
+        "                                   pw_n_obs : option num }.\n"
+        "Definition to_seq_opt (o : option (list num)) : list (option num) := match o with Some l => map Some l | None => [None] end.\n"
+        "Definition rom_validate_power_parameters (v_self : rom) (es rs ns : option (list num)) (v_metric_mean v_sample_count : num)\n"
+        "    (p : power_param) : option (option num * list (option num) * list (option num) * list (option num)) :=\n"
+        "  if pp_needs_effect p && negb (is_some es) && negb (is_some rs) then None else\n"
+        "  let v_effect_size := if pp_needs_effect p then\n"
+        "      match rs with None => es | Some rl => Some (map (fun v_rel_effect_size => (v_rel_effect_size * v_metric_mean)%num) rl) end\n"
+        "    else None in\n"
+        "  let v_rel_effect_size := if pp_needs_effect p then\n"
+        "      match es with None => rs | Some el => Some (map (fun v_effect_size => (v_effect_size / v_metric_mean)%num) el) end\n"
+        "    else None in\n"
+        "  let v_n_obs := if pp_needs_n_obs p then match ns with None => Some [v_sample_count] | Some l => Some l end else None in\n"
+        "  let v_power := if pp_needs_power p then Some (cfg_power v_self) else None in\n"
+        "  Some (v_power, to_seq_opt v_effect_size, to_seq_opt v_rel_effect_size, to_seq_opt v_n_obs).\n"
+        "Definition rom_power_row (v_self : rom) (v_var v_metric_mean : num) (p : power_param) (v_power : option num)\n"
+        "    (v_effect_size_i v_rel_effect_size_i v_n_obs_i : option num) : power_row :=\n"
+        "  let v_parameter_value := rom_solve_power_from_stats v_self v_var v_n_obs_i v_effect_size_i v_power in\n"
+        "  mk_power_row (match p with PPower => Some v_parameter_value | _ => v_power end)\n"
+        "               (if pp_solves_effect p then Some v_parameter_value else v_effect_size_i)\n"
+        "               (if pp_solves_effect p then Some (v_parameter_value / v_metric_mean)%num else v_rel_effect_size_i)\n"
+        "               (match p with PNObs => Some (nceil v_parameter_value) | _ => v_n_obs_i end).\n"
+        "(* for ... in zip(effect_size, rel_effect_size, strict=True): for n_obs_i in n_obs: result.append(...) *)\n"
+        "Definition rom_power_rows (v_self : rom) (v_var v_metric_mean : num) (p : power_param) (v_power : option num)\n"
+        "    (v_effect_size v_rel_effect_size v_n_obs : list (option num)) : list power_row :=\n"
+        "  flat_map (fun er => map (fun v_n_obs_i => rom_power_row v_self v_var v_metric_mean p v_power (fst er) (snd er) v_n_obs_i) v_n_obs)\n"
+        "           (combine v_effect_size v_rel_effect_size).\n"
+        "Definition rom_solve_power_from_aggregates (v_self : rom) (es rs ns : option (list num)) (v_data : aggregates num)\n"
+        "    (p : power_param) : option (list power_row) :=\n"
+        "  let v_data := agg_with_zero_div v_data in\n"
+        "  let v_covariate_coef := rom_covariate_coef v_self v_data in\n"
+        "  let v_covariate_mean := ((agg_mean v_data (cfg_numer_covariate v_self)) / (agg_mean v_data (cfg_denom_covariate v_self)))%num in\n"
+        "  let v_metric_mean := rom_metric_mean v_self v_data v_covariate_coef v_covariate_mean in\n"
+        "  match rom_validate_power_parameters v_self es rs ns v_metric_mean (agg_count v_data) p with\n"
+        "  | None => None\n"
+        "  | Some (v_power, v_effect_size, v_rel_effect_size, v_n_obs) =>\n"
+        "      if negb (Nat.eqb (length v_effect_size) (length v_rel_effect_size)) then None   (* zip(strict=True) *)\n"
+        "      else Some (rom_power_rows v_self (rom_metric_var v_self v_data v_covariate_coef) v_metric_mean p v_power\n"
+        "                                v_effect_size v_rel_effect_size v_n_obs)\n"
+        "  end.\n")
 
 
 def _find_boundary_emit(tr):
